@@ -15,6 +15,8 @@ CONF = {
     "C07": {"quick": 800, "thorough": 40000, "batch": 50, "min_distinct": 20, "loops": [1, 2], "env_alt": [{}, {"GODEBUG": "asynctimerchan=0"}]},
     "C08": {"quick": 480, "thorough": 20000, "batch": 30, "min_distinct": 20, "loops": [1, 2], "env_alt": [{}, {"GODEBUG": "asynctimerchan=0"}]},
     "C10": {"quick": 480, "thorough": 20000, "batch": 30, "min_distinct": 8, "loops": [1, 1, 2]},
+    "C11": {"quick": 160, "thorough": 8000, "batch": 10, "min_distinct": 10, "loops": [1]},
+    "C18": {"quick": 320, "thorough": 10000, "batch": 20, "min_distinct": 20, "loops": [1]},
     "C17": {"quick": 640, "thorough": 30000, "batch": 40, "min_distinct": 20, "loops": [1, 2], "engine": "muxmon", "pkg": "mux", "test": "TestVerifMux"},
     "C14": {"quick": 480, "thorough": 20000, "batch": 30, "min_distinct": 20, "loops": [1, 2]},
     "C13": {"quick": 240, "thorough": 8000, "batch": 15, "min_distinct": 12, "loops": [2, 1, 2]},
